@@ -824,3 +824,141 @@ Proof.
   - destruct (pe_diag_in_flight p) eqn:Ei; [apply Fl|apply Dx]; assumption.
   - destruct (pe_diag_in_flight p) eqn:Ei; [apply Fl|apply Dx]; assumption.
 Qed.
+
+(* ---- the master *)
+
+Lemma DpRep_slots m l : DpRep m -> slots_ok l -> DpRep (set_slots m l).
+Proof. intros (_ & G) S. split; [exact S|exact G]. Qed.
+Lemma DpRep_cycle m c : DpRep m -> DpRep (set_cycle m c).
+Proof. intros H. exact H. Qed.
+Lemma DpRep_events m e : DpRep m -> DpRep (set_events m e).
+Proof. intros H. exact H. Qed.
+
+Definition tx_post (m' : dpm) (r : DpMaster.txout) : Prop :=
+  DpRep m' /\
+  match r with
+  | Some (wire, er) => Z.of_nat (length wire) <= 65536 /\ forall da, er = Some da -> dp_waiting m' da
+  | None => True
+  end.
+
+(* the slot loop of transmit_telegram: never panics; (fuel: C14) *)
+Lemma dp_tx_loop_no_panic pa : builder_valid pa -> forall fuel m, DpRep m -> dm_op m <> OpStop ->
+  match dp_tx_loop fuel pa tx_buffer_size m None with
+  | Ok (m', r) => tx_post m' r
+  | Panic _ => False
+  | OutOfFuel => True
+  end.
+Proof.
+  intros B. induction fuel as [|fuel IH]; intros m D Hop; [exact I|].
+  cbn [dp_tx_loop]. pose proof D as (S & G).
+  destruct (dm_cycle m) as [index|] eqn:Hc.
+  2:{ split; [exact D|exact I]. }
+  destruct (get_at_index_ok (dm_slots m) index S) as [E|(i & p & E & Hn & Hi & Pok & Hl)]; rewrite E; cbn [bind].
+  { split; [exact D|exact I]. }
+  destruct (p_transmit_total pa (dm_op m) p B Hop Pok) as (p1 & r & Et & P1 & A1 & Rq). rewrite Et. cbn [bind hd_index].
+  assert (S1 : slots_ok (put_slot (dm_slots m) i p1)) by (apply slots_ok_put; assumption).
+  destruct r as [h pdu|ev].
+  - destruct Rq as (Wf & Hlb & Hda). destruct (send_data_ok h pdu Wf Hlb) as (Es & Hlen). rewrite Es. cbn [bind].
+    split; [apply DpRep_events, DpRep_slots; assumption|]. split; [exact Hlen|].
+    intros da Eda. apply expects_reply_da in Eda. exists index, (mkHandle i (pe_addr p1)), p1.
+    split; [exact Hc|]. split; [|congruence].
+    cbn [dm_slots set_events set_slots]. eapply get_at_index_put; eassumption.
+  - assert (Ev : (match ev with Some e => Ok (Some (mkHandle i (pe_addr p), e)) | None => Ok (@None (handle * pevent)) end)
+                 = Ok (match ev with Some e => Some (mkHandle i (pe_addr p), e) | None => None end))
+      by (destruct ev; reflexivity).
+    rewrite Ev. cbn [bind]. clear Ev.
+    set (m1 := set_slots m (put_slot (dm_slots m) i p1)).
+    assert (D1 : DpRep m1) by (apply DpRep_slots; assumption).
+    destruct (increment_cycle_ok m1 index S1) as (c & comp & Ei). rewrite Ei. cbn [bind].
+    destruct comp; [split; [exact D1|exact I]|].
+    destruct ev as [e|]; [split; [exact D1|exact I]|].
+    apply IH; [exact D1|exact Hop].
+Qed.
+
+Lemma instant_diff_ok a b : time_ok a -> time_ok b -> instant_diff a b = Ok (Z.abs (a - b)).
+Proof.
+  unfold time_ok, instant_diff. intros Ha Hb.
+  destruct (Z.ltb_spec (a - b) (-9223372036854775808)); [lia|].
+  destruct (Z.ltb_spec 9223372036854775807 (a - b)); [lia|]. reflexivity.
+Qed.
+
+(* <DpMaster as FdlApplication>::transmit_telegram *)
+Theorem dp_transmit_total pa m now hp : builder_valid pa -> time_ok now -> DpRep m ->
+  exists m' r, dp_transmit pa tx_buffer_size m now hp = Ok (m', r) /\ tx_post m' r.
+Proof.
+  intros B Tn D. pose proof D as (S & G). unfold dp_transmit.
+  destruct (opstate_eqb (dm_op m) OpStop) eqn:Eop.
+  { eexists; eexists. split; [reflexivity|]. split; [exact D|exact I]. }
+  assert (Hop : dm_op m <> OpStop) by (intros E; rewrite E in Eop; discriminate Eop).
+  assert (Due : exists due, (if hp then Ok false else gc_due pa m now) = Ok due).
+  { destruct hp; [exists false; reflexivity|]. unfold gc_due. destruct (dm_last_gc m) as [t|]; [|exists true; reflexivity].
+    rewrite (instant_diff_ok now t Tn G). cbn [bind]. eexists; reflexivity. }
+  destruct Due as (due & Edue). rewrite Edue. cbn [bind]. destruct due.
+  - assert (Eb : exists b, (match dm_op m with OpClear => Ok dp_gc_clear | OpOperate => Ok dp_gc_operate | OpStop => Panic SiteUnreachable end) = Ok b)
+      by (destruct (dm_op m); [contradiction Hop; reflexivity|eexists; reflexivity|eexists; reflexivity]).
+    destruct Eb as (b & Eb). rewrite Eb. cbn [bind].
+    destruct (bv_addr_retry pa B) as (Hts & _).
+    assert (Wf : wf_header (gc_header pa)).
+    { unfold wf_header, gc_header, is_addr7. cbn. split; [unfold dp_gc_da; lia|]. split; [lia|]. split; cbv; split; congruence. }
+    destruct (send_data_ok (gc_header pa) [b; dp_gc_groups] Wf ltac:(unfold length_byte; cbn; lia)) as (Es & Hlen).
+    rewrite Es. cbn [bind]. eexists; eexists. split; [reflexivity|].
+    split; [split; [exact S|exact Tn]|]. split; [exact Hlen|].
+    intros da Eda. discriminate Eda.
+  - pose proof (dp_tx_loop_no_panic pa B (dp_tx_fuel m) m D Hop) as H.
+    pose proof (tx_loop_ends (dp_tx_fuel m) pa tx_buffer_size m None) as Hf.
+    destruct (dp_tx_loop (dp_tx_fuel m) pa tx_buffer_size m None) as [[m' r]| |].
+    + exists m', r. split; [reflexivity|exact H].
+    + contradiction H.
+    + exfalso. apply Hf; [|reflexivity]. unfold dp_tx_fuel. pose proof (mu_le m). lia.
+Qed.
+
+(* <DpMaster as FdlApplication>::receive_reply, for the reply the master waits for *)
+Theorem dp_receive_reply_total m addr t : DpRep m -> dp_waiting m addr -> reply_shape t ->
+  exists m', dp_receive_reply m addr t = Ok m' /\ DpRep m'.
+Proof.
+  intros D (index & hd & p & Hc & Eg & Ea) Sh. pose proof D as (S & G).
+  unfold dp_receive_reply. rewrite Hc, Eg. cbn [bind]. rewrite <- Ea, Z.eqb_refl.
+  destruct (get_at_index_ok (dm_slots m) index S) as [E|(i & q & E & Hn & Hi & Pok & Hl)]; rewrite E in Eg; [discriminate Eg|].
+  injection Eg as <- <-.
+  destruct (p_receive_reply_total q t Pok Sh) as (p1 & ev & Er & P1 & A1). rewrite Er. cbn [bind hd_index].
+  assert (S1 : slots_ok (put_slot (dm_slots m) i p1)) by (apply slots_ok_put; assumption).
+  destruct (increment_cycle_ok (set_slots m (put_slot (dm_slots m) i p1)) index S1) as (c & comp & Ei). rewrite Ei. cbn [bind].
+  eexists. split; [reflexivity|]. split; [exact S1|exact G].
+Qed.
+
+Theorem dp_handle_timeout_total m addr : DpRep m -> exists m', dp_handle_timeout m addr = Ok m' /\ DpRep m'.
+Proof. intros D. exists m. split; [reflexivity|exact D]. Qed.
+
+(* the DP master satisfies the contract *)
+Theorem dp_contract : apps_contract dpm dp_app_ops DpRep dp_waiting.
+Proof.
+  split; [|split].
+  - intros m now p hp D B Tn. cbn [a_tx dp_app_ops].
+    destruct (dp_transmit_total p m now hp B Tn D) as (m' & r & E & D' & Hr).
+    exists m', r. split; [exact E|]. split; [exact D'|]. destruct r as [[wire er]|]; exact Hr.
+  - intros m now p addr t D Wt B Tn Rk. cbn [a_rx dp_app_ops].
+    apply dp_receive_reply_total; [exact D|exact Wt|eapply reply_ok_shape; exact Rk].
+  - intros m now p addr D Wt B Tn. cbn [a_to dp_app_ops]. apply dp_handle_timeout_total. exact D.
+Qed.
+
+(* outside the contract the panic sites are real: a reply nobody waits for *)
+Lemma dp_receive_reply_outside_contract :
+  dp_receive_reply (dp_new 1 false) 5 TShortConf = Panic SiteUnreachable /\ DpRep (dp_new 1 false).
+Proof.
+  split; [reflexivity|]. split; [|exact I]. intros [|[|i]] p E; discriminate E.
+Qed.
+
+(* non-vacuity: new masters of any size, with peripherals added, satisfy DpRep *)
+Lemma DpRep_new k owned : DpRep (dp_new k owned).
+Proof.
+  split; [|exact I]. intros i p E. cbn in E. exfalso.
+  assert (H : forall k i, nth_error (repeat (@None periph) k) i <> Some (Some p)).
+  { clear. induction k as [|k IH]; intros [|i]; cbn; try discriminate. apply IH. }
+  exact (H _ _ E).
+Qed.
+
+Lemma periph_new_ok a o pi_i pi_q dsz : 0 <= a < 128 -> (length pi_q <= 244)%nat ->
+  match o_user_prm o with Some u => (length u <= 237)%nat | None => True end ->
+  match o_config o with Some c => (length c <= 244)%nat | None => True end ->
+  periph_ok (periph_new a o pi_i pi_q dsz).
+Proof. intros Ha Hq Hu Hc. unfold periph_ok, periph_new. cbn. repeat split; try assumption; try lia. discriminate. Qed.
